@@ -208,6 +208,12 @@ class Interp:
                     return False
                 parts = [S._b(self.veq(x, y)) for x, y in zip(ia, ib)]
                 return z3.And(*parts) if parts else True
+            if ha.kind == 'dict' and hb.kind == 'dict' and 'keys' in ha.fields and 'keys' in hb.fields:
+                if len(ha.fields['keys']) != len(hb.fields['keys']):
+                    return False
+                if not ha.fields['keys']:
+                    return True
+                raise Unsupported('== between non-empty dicts')
             return False
         if isinstance(a, VAny) and isinstance(b, VAny):
             return a.t == b.t
@@ -392,6 +398,7 @@ class Interp:
         return None
 
     def resolve_qual(self, q):
+        q = self.prog.canonical(q)
         short = q.split('.')[-1]
         if q.startswith('pexpect.exceptions.'):
             return VClass(short)
@@ -1032,6 +1039,10 @@ class Interp:
             modfr = Frame(fi, fi.module, fi.cls, {}, None)
             bound = self.bind_params(fi.node, args, kwargs, modfr, fi.qual)
             return self.ctx.alloc(HObj('ctxmgr', 'ctxmgr', {'fi': fi, 'bound': bound, 'recv_cls': recv_cls}, closed=True))
+        if recv_cls is None and fi.cls and args and isinstance(args[0], VObj) and not fi.is_static:
+            c0 = self.ctx.heap[args[0].oid].cls         # Class.method(obj, ...): the receiver is obj
+            if c0 in self.prog.classes and self.prog.is_subclass(c0, fi.cls):
+                recv_cls = c0
         con = self.reg.contract_for(fi.qual, recv_cls)
         modfr = Frame(fi, fi.module, fi.cls, {}, None)
         bound = self.bind_params(fi.node, args, kwargs, modfr, fi.qual)
